@@ -31,6 +31,8 @@ Driver ops for the substring meta searcher and the public `memmem` API
       (needle(), printed as hex):
       `ok <results> allocs=<model allocation count> steps=<n>`; steps of the operations only.
   finderrevops <cfg> <hex needle> <ops>
+  finderopsal <cfg> <pf> <off> <hex needle> <ops> / finderrevopsal <cfg> <off> <hex needle> <ops>
+     as above; the implementation borrows the needle from offset <off> of the first haystack
       the same op machine for `FinderRev::new(needle)`: `f:<hex hay>` is `rfind`, `i:<hex hay>`
       is `rfind_iter(hay)` run to exhaustion; `r`, `o`, `k`, `n` as above; same answer format.
 
@@ -200,6 +202,25 @@ def handleMemmem (op : String) (args : List String) : Option String :=
       | .ok (os, _, heap) c => s!"ok {fmtMmOutsX os} allocs={heap.allocs} steps={c.steps}"
       | .fault e => fmtFault e)
   | "finderrevops", [cfg, needle, ops] => do
+    let cfg ← parseMemmemCfg cfg
+    let n := mmNeedle (← parseHex needle)
+    let ops ← parseFinderOpsX ops
+    some (afterBuild (FinderRev.new n) fun f =>
+      match FinderRev.runX cfg ops f {} {} with
+      | .ok (os, _, heap) c => s!"ok {fmtMmOutsX os} allocs={heap.allocs} steps={c.steps}"
+      | .fault e => fmtFault e)
+  -- the same programs with the needle borrowed from inside the first haystack buffer
+  -- (aliasing is invisible to the model: values only)
+  | "finderopsal", [cfg, pf, _off, needle, ops] => do
+    let cfg ← parseMemmemCfg cfg
+    let pf ← parsePf pf
+    let n := mmNeedle (← parseHex needle)
+    let ops ← parseFinderOpsX ops
+    some (afterBuild (mmBuild cfg pf Pair.defaultRank n) fun f =>
+      match Finder.runX cfg ops f {} {} with
+      | .ok (os, _, heap) c => s!"ok {fmtMmOutsX os} allocs={heap.allocs} steps={c.steps}"
+      | .fault e => fmtFault e)
+  | "finderrevopsal", [cfg, _off, needle, ops] => do
     let cfg ← parseMemmemCfg cfg
     let n := mmNeedle (← parseHex needle)
     let ops ← parseFinderOpsX ops
